@@ -96,12 +96,12 @@ PROPS = {
     "C17": dict(
         title="CLP(FD) labelling completeness and uniqueness",
         props_module="PvModel.Props.C17",
-        props_extra=["PvModel.Props.C17Label"],
+        props_extra=["PvModel.Props.C17Label", "PvModel.Props.C17Enforce"],
         rule="the C16 generator; oracle: brute force over the window projected on the query variables — every solution is returned exactly once per "
              "disjunction path it satisfies; non-trivial = >1 solution or >=1 answer; distinct = distinct case lines",
         trusted=SEARCH_TRUST,
         assumptions=[],
-        open=["distinctfd on an OPEN-TAILED list (the tail variable is taken for an element) is outside the global exactness theorems (CstOK requires a proper list term)", "every domain-store key is unbound: PROVED (C16_domain_keys_unbound, Props/C16Keys.lean, strict mode, no CLP(Z) constraint on an FD variable); labelled states are closed and solutions: PROVED (C16_labelled_answer_sound); the normal form of stored disequalities in FD states, the engine-level `onceo` of enforce_constraints_fd and reification are carried by the correspondence"],
+        open=["distinctfd on an OPEN-TAILED list (the tail variable is taken for an element) is outside the global exactness theorems (CstOK requires a proper list term)", "the `onceo` over the hidden variables: PROVED on the engine (C17_hidden_onceo, Props/C17Enforce.lean: at most one state, a closed one when the labelled state has a solution, none when it has none; hypothesis: the peek fuel lets the labelling drain); the composition of program + labelling of the query term + this `onceo` + reification into ONE end-to-end statement about `queryG`, and tree disequalities mixed into FD states, are carried by the correspondence"],
     ),
     "C19": dict(
         title="CLP(Z) plusz/timesz",
